@@ -1,7 +1,9 @@
 (* C15 -- Discovery datagrams are retransmitted within the SOAP-over-UDP time envelope.
    Property theorems only; each is closed by [exact] of a lemma proved elsewhere. *)
 From Coq Require Import List ZArith Lia.
+From Coq Require Import Permutation.
 From SDC Require Import Wsd.Udp Wsd.Udp_Proofs Wsd.Gen_Params Wsd.Gen_Kinds Wsd.Kinds Wsd.Kinds_Proofs.
+From SDC Require Import Wsd.SendLoop Wsd.SendLoop_Proofs.
 Import ListNotations.
 Open Scope Z_scope.
 
@@ -89,3 +91,39 @@ Example C15_own_ids_nonvacuous :
         (EvIn (-1))) = false /\
   kind_schedule_us KResolveMatches 499 249 = [(499000, 1); (748000, 2); (1246000, 3)].
 Proof. split; vm_compute; reflexivity. Qed.
+
+(* ---- the send loop (_run_send over the priority queue): what is scheduled is what is transmitted ---- *)
+(* at any moment of any history of enqueues and polls (any clock values): transmitted + still queued = enqueued,
+   as multisets - no datagram is transmitted twice, none is dropped, none is invented *)
+Theorem C15_sendloop_exactly_once : forall es,
+  Permutation (sent_items (srun es) ++ fst (srun es)) (puts es).
+Proof. exact sendloop_conservation. Qed.
+Print Assumptions C15_sendloop_exactly_once.
+
+(* no transmission goes out before its scheduled time, so the lower bounds of the envelope (initial delay >= 0,
+   first gap >= min, following gaps) carry over from the schedule to the wire up to the poll raster *)
+Theorem C15_sendloop_never_early : forall es,
+  Forall (fun p => fst (snd p) <= fst p) (snd (srun es)).
+Proof. exact sendloop_never_early. Qed.
+Print Assumptions C15_sendloop_never_early.
+
+(* the head of the queue is always the earliest pending transmission *)
+Theorem C15_sendloop_queue_ordered : forall es, time_sorted (fst (srun es)).
+Proof. exact sendloop_queue_sorted. Qed.
+Print Assumptions C15_sendloop_queue_ordered.
+
+(* the loop ends on an empty queue only (also after schedule_stop): once the clock has passed every scheduled
+   time, as many polls as there are enqueued transmissions leave the queue empty and every one of the
+   1 + repeat transmissions of every message has gone out exactly once, none early *)
+Theorem C15_sendloop_drains : forall es now n,
+  Forall (fun x => fst x <= now) (puts es) -> (length (puts es) <= n)%nat ->
+  let s := srun (es ++ List.repeat (Tick now) n) in
+  fst s = [] /\ Permutation (sent_items s) (puts es) /\ on_time s.
+Proof. exact sendloop_drains. Qed.
+Print Assumptions C15_sendloop_drains.
+
+(* two messages in flight, polls before, between and after the due times, a late enqueue that overtakes *)
+Example C15_sendloop_nonvacuous :
+  observe (srun [Put (50, 1); Put (120, 2); Tick 40; Put (45, 1); Tick 47; Tick 47; Tick 60; Put (30, 2); Tick 61; Tick 200])
+  = ([(47, 45); (60, 50); (61, 30); (200, 120)], []).
+Proof. vm_compute. reflexivity. Qed.
